@@ -108,12 +108,17 @@ type c12RefErr struct{ msg string }
 
 func (e c12RefErr) Error() string { return e.msg }
 
+// c12LitDollar counts the '$' characters the reference interpreter keeps literally because of an escape or because a
+// "${...}" text is not a reference; see the "unspecified" case below (a bare '$' inside a name stays an error)
+var c12LitDollar int
+
 func c12Ref(s string, def bool, visiting map[string]bool, top bool) (string, error) {
 	var out strings.Builder
 	for i := 0; i < len(s); {
 		switch {
 		case strings.HasPrefix(s[i:], "$$"):
 			out.WriteByte('$')
+			c12LitDollar++
 			i += 2
 		case strings.HasPrefix(s[i:], "${"):
 			depth, j := 0, i
@@ -135,9 +140,11 @@ func c12Ref(s string, def bool, visiting map[string]bool, top bool) (string, err
 			}
 			if end < 0 {
 				out.WriteString("${")
+				c12LitDollar++
 				i += 2
 				continue
 			}
+			litBefore := c12LitDollar
 			inner, err := c12Ref(s[i+2:end], def, visiting, false)
 			if err != nil {
 				return "", err
@@ -147,16 +154,19 @@ func c12Ref(s string, def bool, visiting map[string]bool, top bool) (string, err
 			if !strings.Contains(name, ":") {
 				if !def {
 					out.WriteString("${" + inner + "}") // no scheme and no default scheme: not a reference
+					c12LitDollar++
 					i = end + 1
 					continue
 				}
 				name = "aa:" + name
 			}
 			if strings.Contains(name, "$") {
-				if strings.Contains(s[i+2:end], "$$") {
-					// an ESCAPED sequence inside a reference's name (`${$${aa:B}}`): the statement can be read both ways ("$$ protects the
-					// following text" => literal, or "name contains $" => error) and expand.go documents it as unsupported: not compared
-					return "", c12RefErr{"unspecified: escape inside a reference name"}
+				if c12LitDollar > litBefore {
+					// the '$' in the name is LITERAL text written inside the braces - an escape (`${$${aa:B}}`) or a
+					// "${...}" that is not a reference (`${:${K}}` without default scheme): the statement can be read both ways ("$$
+					// protects the following text" / "not a complete reference" => literal, or "name contains $" => error) and
+					// expand.go documents nested escaping as unsupported: not compared
+					return "", c12RefErr{"unspecified: literal dollar inside a reference name"}
 				}
 				return "", c12RefErr{"dollar in name"}
 			}
